@@ -50,6 +50,41 @@ def recase(rng, line):
     return flip(name) + params + ":" + value
 
 
+def name_mask(line):
+    """Model/Rewrite.v name_positions on the raw line: letters of the property name and of parameter names (outside
+    quoted strings, before the first ':' that does not follow a backslash, not between '=' and the next ';');
+    second result: the positions after that ':' (the value)"""
+    bs = inq = False
+    ph = "N"
+    names, value = [], []
+    for c in line:
+        letter = ("a" <= c <= "z") or ("A" <= c <= "Z")
+        names.append(letter and not inq and ph in "NK")
+        value.append(ph == "V")
+        live = not inq and not bs
+        if ph != "V":
+            if c == ":" and live:
+                ph = "V"
+            elif c == ";" and live:
+                ph = "K"
+            elif c == "=" and not inq and ph == "K":
+                ph = "P"
+        bs = c == "\\"
+        if c == '"':
+            inq = not inq
+    return names, value
+
+
+def parts_obs(line):
+    """what C09_line_case compares: exception class, or (upper-cased name, parameters, value text)"""
+    from icalendar.parser import Contentline
+    try:
+        n, p, v = Contentline(line).parts()
+        return ["ok", n.upper(), [[k, p[k]] for k in p], v]
+    except Exception as e:
+        return ["err", common.exc_class(e)]
+
+
 def obs_with_offsets(comps):
     """the tree observation plus, for date-time values, the UTC offset the provider assigns"""
     out = []
@@ -88,7 +123,8 @@ def run(ctx, res):
     res.rule = ("well-formed calendars (all fixtures that parse, generated calendars) x rewrites: LF for CRLF, leading UTF-8 BOM "
                 "on bytes, str for bytes, re-folding every logical line at random inner positions with SPACE or TAB (dense and "
                 "sparse), 0-3 trailing blank lines, random letter case of BEGIN/END, component, property and parameter names, and "
-                "compositions; under both time-zone providers; non-trivial = the rewritten text differs from the original; "
+                "compositions; under both time-zone providers; plus random lines over the delimiter alphabet (malformed included) with "
+                "letters flipped at the name positions of Model/Rewrite.v, compared through Contentline.parts; non-trivial = the rewritten text differs from the original; "
                 "distinct by (text, rewrite)")
     reqs, post = [], []
     n_pairs = 0
@@ -113,6 +149,11 @@ def run(ctx, res):
                     variants.append((f"refold p={dens} nl={nl!r} ws={ws!r}", layout(segs, nl, ws, rng.randrange(0, 4)).encode("utf-8")))
                 variants.append(("blank", (layout([[l] for l in lines], "\r\n", " ", 3)).encode("utf-8")))
                 rc = [recase(rng, l) for l in lines]
+                for l0, l1 in zip(lines, rc):     # the rewrite stays inside line_variant (hypothesis of C09_parse_case_layout)
+                    names, value = name_mask(l0)
+                    be = l0.split(":")[0].split(";")[0].upper() in ("BEGIN", "END") and "%" not in l0
+                    if len(l0) != len(l1) or any(a != b and not (nm or (be and vl)) for a, b, nm, vl in zip(l0, l1, names, value)):
+                        raise RuntimeError("C09 harness: recase left the name positions of Model/Rewrite.v: %r -> %r" % (l0, l1))
                 variants.append(("recase", layout([[l] for l in rc], "\r\n", " ", 0).encode("utf-8")))
                 segs = [segment(rng, l, 0.1) for l in rc]
                 variants.append(("recase+refold+lf+bom", b"\xef\xbb\xbf" + layout(segs, "\n", "\t", 2).encode("utf-8")))
@@ -135,6 +176,20 @@ def run(ctx, res):
                         post.append(("Component.from_ical_on_rewritten_text", vt[:300], o))
         finally:
             icalendar.use_zoneinfo()
+    # C09_line_case on arbitrary lines (malformed ones included): flipping letters at the name positions never changes
+    # what Contentline.parts returns
+    lrng = common.rng_for(ctx.seed, "c09-lines")
+    alpha = ["\\", ",", ":", ";", '"', "=", "a", "B", "%", "2", "C", "3", "A", "5", "-", " ", "x", "\u00e9"]
+    for i in range(200000 if ctx.big else 15000 * (1 + ctx.level)):
+        line = "".join(lrng.choice(alpha) for _ in range(lrng.randint(1, 14)))
+        names, _ = name_mask(line)
+        line2 = "".join(c.swapcase() if (nm and lrng.random() < 0.6) else c for c, nm in zip(line, names))
+        res.count(("line", line, line2), nontrivial=(line2 != line))
+        res.dist("line-case")
+        a, b = parts_obs(line), parts_obs(line2)
+        if a != b:
+            res.fail("C09: Contentline.parts changes when only names are written in another letter case",
+                     {"label": "line", "rewrite": "line-case", "text": line, "rewritten": line2}, observed=str(b), expected=str(a))
     outs = M.batch(reqs) if (M and reqs) else None
     if outs is not None:
         for (target, inp, impl), m in zip(post, outs):
@@ -145,5 +200,9 @@ def run(ctx, res):
 
 def replay(ctx, data):
     d = data["input"]
+    if d.get("label") == "line":
+        print("original :", parts_obs(d["text"]))
+        print("rewritten:", parts_obs(d["rewritten"]))
+        return
     print("original :", T.impl_parse(d["text"])[0])
     print("rewritten:", T.impl_parse(d["rewritten"])[0])
